@@ -8,7 +8,10 @@ import (
 	"hash/fnv"
 	"math/rand"
 	"os"
+	"runtime"
 	"strconv"
+	"sync"
+	"sync/atomic"
 	"time"
 
 	"github.com/gobwas/pool/pbytes"
@@ -35,6 +38,7 @@ type Job struct {
 	Samples int      `json:"samples,omitempty"`
 	CapSec  int      `json:"cap_sec,omitempty"`
 	Retries int      `json:"retries,omitempty"`
+	HangSec int      `json:"hang_sec,omitempty"`
 }
 
 // Found is a violating run.
@@ -61,6 +65,17 @@ type BatchOut struct {
 	WallS       float64          `json:"wall_s"`
 	ClassCounts map[string]int   `json:"class_counts,omitempty"`
 	RunDigests  []string         `json:"run_digests,omitempty"`
+	Hang        *HangInfo        `json:"hang,omitempty"`
+}
+
+// HangInfo describes a run that made no progress for HangSec seconds of wall
+// clock (an endless loop without I/O never reaches the transports' step
+// budget).
+type HangInfo struct {
+	Index int    `json:"index"`
+	Seed  uint64 `json:"seed"`
+	Sec   int    `json:"sec"`
+	Stack string `json:"stack"`
 }
 
 // SeedOf derives the seed of run i.
@@ -118,13 +133,41 @@ func runBatch(spec *props.Spec, j *Job) *BatchOut {
 	seen := map[uint64]struct{}{}
 	all := sim.Digest{}
 	all.Reset()
+	// Wall-clock monitor for runs that spin without I/O.
+	var curIdx, curStart atomic.Int64
+	curIdx.Store(-1)
+	hangSec := j.HangSec
+	if hangSec == 0 {
+		hangSec = 45
+	}
+	var outMu sync.Mutex
+	go func() {
+		for {
+			time.Sleep(time.Second)
+			idx, st := curIdx.Load(), curStart.Load()
+			if idx < 0 || time.Now().UnixNano()-st < int64(hangSec)*int64(time.Second) || curIdx.Load() != idx {
+				continue
+			}
+			buf := make([]byte, 1<<17)
+			n := runtime.Stack(buf, true)
+			outMu.Lock()
+			out.Hang = &HangInfo{Index: int(idx), Seed: SeedOf(j.Base, j.Prop, int(idx)), Sec: hangSec, Stack: string(buf[:n])}
+			out.WallS = time.Since(start).Seconds()
+			writeJSON(j.Out, out)
+			os.Exit(3)
+		}
+	}()
 	for i := j.From; i < j.To; i++ {
 		if j.CapSec > 0 && time.Since(start) > time.Duration(j.CapSec)*time.Second {
 			break
 		}
 		seed := SeedOf(j.Base, j.Prop, i)
+		curStart.Store(time.Now().UnixNano())
+		curIdx.Store(int64(i))
 		detail := len(out.Samples) < j.Samples
 		res := Exec(spec, sim.NewTapeCap(seed, tapeCap(spec)), j.Tier, detail)
+		curIdx.Store(-1)
+		outMu.Lock()
 		out.Executed++
 		for k, v := range res.Probes {
 			out.Probes[k] += v
@@ -146,6 +189,7 @@ func runBatch(spec *props.Spec, j *Job) *BatchOut {
 			if len(out.Internal) < 5 {
 				out.Internal = append(out.Internal, "run "+strconv.Itoa(i)+" seed "+strconv.FormatUint(seed, 10)+": "+res.Internal)
 			}
+			outMu.Unlock()
 			continue
 		}
 		if res.Viol != nil {
@@ -154,12 +198,14 @@ func runBatch(spec *props.Spec, j *Job) *BatchOut {
 			if out.ClassCounts[c] == 1 && len(out.Found) < 8 {
 				out.Found = append(out.Found, Found{Index: i, Seed: seed, Result: res})
 			}
+			outMu.Unlock()
 			continue
 		}
 		if detail {
 			res.Probes, res.Faults = nil, nil
 			out.Samples = append(out.Samples, res)
 		}
+		outMu.Unlock()
 	}
 	for d := range seen {
 		out.Digests = append(out.Digests, strconv.FormatUint(d, 16))
